@@ -290,12 +290,17 @@ theorem updateGated_good {sh : Sh p} (wf : sh.WF) {w : World p} (h : Inv sh w) (
 @[simp] theorem hset_apply (m : Fin p → Option Nat) (x y : Fin p) (v : Option Nat) :
     hset m x v y = if y = x then v else m y := rfl
 
-/-- while `frontend.Maps != nil`: whatever differs from the written maps is tracked in add/del -/
+/-- what was written for a host of content `c` whose backend had content `b` -/
+def entry (c b : Nat) : Nat × Bool := (c, hasRoot c && sslOf b)
+
+/-- while `frontend.Maps != nil`: whatever differs from the written maps is tracked in add/del;
+the written root-ssl entries are those of the backends as of the last commit (`bcC`) -/
 structure HInv (s : HStore p) : Prop where
   a : s.mapsNil = false → ∀ x c, s.add x = some c → s.items x = some c
-  b : s.mapsNil = false → ∀ x, s.add x = none → s.del x = none → s.items x = s.maps x
+  b : s.mapsNil = false → ∀ x, s.add x = none → s.del x = none →
+        s.maps x = (s.items x).map fun c => entry c (s.bcC x)
   b2 : s.mapsNil = false → ∀ x, s.add x = none → (s.del x).isSome = true → s.items x = none
-  c : s.mapsNil = false → ∀ x d, s.del x = some d → s.maps x = some d
+  c : s.mapsNil = false → ∀ x d, s.del x = some d → s.maps x = some (entry d (s.bcC x))
 
 theorem hacquire_inv {s : HStore p} (h : HInv s) (x : Fin p) (c : Nat) : HInv (s.acquire x c) := by
   unfold HStore.acquire
@@ -315,10 +320,10 @@ theorem hremoveOne_inv {s : HStore p} (h : HInv s) (x : Fin p) (hx : s.add x = n
   | none => simpa using h
   | some v =>
     obtain ⟨ha, hb, hb2, hc⟩ := h
-    have hdx : s.mapsNil = false → s.maps x = some v := by
+    have hdx : s.mapsNil = false → s.maps x = some (entry v (s.bcC x)) := by
       intro hm
       cases hd : s.del x with
-      | none => rw [← hb hm x hx hd]; exact hi
+      | none => rw [hb hm x hx hd, hi]; rfl
       | some d' => have := hb2 hm x hx (by simp [hd]); rw [hi] at this; cases this
     refine ⟨?_, ?_, ?_, ?_⟩ <;> (simp only [hset_apply]; grind)
 
@@ -333,6 +338,10 @@ theorem hremoveAll_inv (xs : List (Fin p)) : ∀ {s : HStore p}, HInv s →
       intro y hy
       rw [hremoveOne_add]; exact hx y (List.mem_cons_of_mem _ hy))
     simpa [HStore.removeAll] using this
+
+theorem hbackend_inv {s : HStore p} (h : HInv s) (x : Fin p) (b : Nat) : HInv (s.backend x b) := by
+  obtain ⟨ha, hb, hb2, hc⟩ := h
+  exact ⟨ha, hb, hb2, hc⟩
 
 theorem hclear_inv (s : HStore p) : HInv s.clear := by
   refine ⟨?_, ?_, ?_, ?_⟩ <;> intro h <;> simp [HStore.clear] at h
@@ -355,7 +364,7 @@ theorem hshrink_inv {s : HStore p} (h : HInv s) : HInv s.shrink := by
     by_cases hx : s.hmatched x = true
     · obtain ⟨d, hd, _⟩ := (hmatched_iff _ _).1 hx
       simp only [hx, if_true]
-      intro _ _; rw [hd]; exact (hc hm x d hd).symm
+      intro _ _; rw [hd]; exact hc hm x d hd
     · simp only [hx]; exact hb hm x
   · intro hm x
     simp only [HStore.shrink]
@@ -368,29 +377,55 @@ theorem hshrink_inv {s : HStore p} (h : HInv s) : HInv s.shrink := by
     · simp [hx]
     · simp only [hx]; exact hc hm x d
 
-/-- after `WriteFrontendMaps` + `Commit` the map files hold exactly the current hosts -/
-theorem hupdate_good {s : HStore p} (h : HInv s) :
-    (∀ x, s.update.maps x = s.update.items x) ∧ s.update.mapsNil = false ∧ HInv s.update := by
+/-- after `WriteFrontendMaps` + `Commit` the map files hold exactly what the current hosts AND
+the current backends ask for — provided the guard also looks at the backends, or no backend of a
+host with a root redirect changed in this batch -/
+theorem hupdate_good {s : HStore p} (h : HInv s) (wb : Bool)
+    (hside : wb = true ∨ s.shrink.rootBackendChanged = false) :
+    (∀ x, (s.updateWith wb).maps x = (s.updateWith wb).want x) ∧ (s.updateWith wb).mapsNil = false ∧
+      HInv (s.updateWith wb) := by
   have hs := hshrink_inv h
-  have key : (∀ x, s.update.maps x = s.update.items x) ∧ s.update.mapsNil = false := by
-    unfold HStore.update
-    by_cases hg : (!s.shrink.mapsNil && !s.shrink.isChanged) = true
-    · simp only [hg, if_true]
-      simp only [Bool.and_eq_true, Bool.not_eq_true'] at hg
-      refine ⟨?_, hg.1⟩
+  have hwant : ∀ t : HStore p, ({ t with add := fun _ => none, del := fun _ => none, bcC := t.bc } : HStore p).want = t.want := by
+    intro t; rfl
+  have key : (∀ x, (s.updateWith wb).maps x = (s.updateWith wb).want x) ∧ (s.updateWith wb).mapsNil = false := by
+    unfold HStore.updateWith
+    simp only []
+    split
+    · rename_i hskip
+      simp only [Bool.and_eq_true, Bool.not_eq_true'] at hskip
+      obtain ⟨⟨hnil, hch⟩, hrb⟩ := hskip
+      refine ⟨?_, hnil⟩
       intro x
-      have := (anyFin_false_iff _).1 hg.2 x
+      have hx := (anyFin_false_iff _).1 hch x
       have hn : s.shrink.add x = none ∧ s.shrink.del x = none := by
         cases ha : s.shrink.add x <;> cases hd : s.shrink.del x <;> simp_all
-      exact (hs.b hg.1 x hn.1 hn.2).symm
-    · simp only [hg]
-      exact ⟨fun _ => rfl, rfl⟩
+      have hrbc : s.shrink.rootBackendChanged = false := by
+        rcases hside with hw | hr
+        · simpa [hw] using hrb
+        · exact hr
+      have hx2 := (anyFin_false_iff _).1 hrbc x
+      show s.shrink.maps x = s.shrink.want x
+      rw [hs.b hnil x hn.1 hn.2]
+      unfold HStore.want entry
+      cases hi : s.shrink.items x with
+      | none => rfl
+      | some c =>
+        simp only [Option.map_some, Option.some.injEq, Prod.mk.injEq, true_and]
+        rw [hi] at hx2
+        by_cases hr : hasRoot c = true
+        · simp only [hr, Bool.and_true, bne_eq_false_iff_eq] at hx2
+          simp [hr, hx2]
+        · simp [hr]
+    · exact ⟨fun _ => rfl, rfl⟩
   refine ⟨key.1, key.2, ?_⟩
-  have hadd : ∀ x, s.update.add x = none := by intro x; unfold HStore.update; simp only []
-  have hdel : ∀ x, s.update.del x = none := by intro x; unfold HStore.update; simp only []
+  have hadd : ∀ x, (s.updateWith wb).add x = none := by intro x; unfold HStore.updateWith; simp only []
+  have hdel : ∀ x, (s.updateWith wb).del x = none := by intro x; unfold HStore.updateWith; simp only []
+  have hbcc : (s.updateWith wb).bcC = (s.updateWith wb).bc := by
+    unfold HStore.updateWith; simp only []; split <;> rfl
   refine ⟨?_, ?_, ?_, ?_⟩
   · intro _ x c hx; rw [hadd] at hx; cases hx
-  · intro _ x _ _; exact (key.1 x).symm
+  · intro _ x _ _
+    rw [key.1 x, hbcc]; rfl
   · intro _ x _ hx; rw [hdel] at hx; cases hx
   · intro _ x d hx; rw [hdel] at hx; cases hx
 
